@@ -62,6 +62,26 @@ Theorem C09_docenc_index_select :
 Proof. exact docenc_index_select_proof. Qed.
 Print Assumptions C09_docenc_index_select.
 
+(* the same selection on the encoding side: `docenc IDX` keeps exactly the listed documents *)
+Theorem C09_docenc_index_select_encode_newline :
+  forall docs idx,
+  forallb doc_ok docs = true -> forallb (fun d => bytes_okb (doc_text d)) docs = true ->
+  idx <> [] -> (forall x, In x idx -> (1 <= x)%nat) ->
+  encode_tool 10 idx (decoded_stream 10 (map doc_text docs)) =
+    TOk (b64_file (map doc_text
+      (map snd (filter (fun pd => existsb (Nat.eqb (fst pd)) idx) (combine (seq 1 (length docs)) docs))))).
+Proof. exact docenc_index_select_encode_newline_proof. Qed.
+Print Assumptions C09_docenc_index_select_encode_newline.
+
+Theorem C09_docenc_index_select_encode_nul :
+  forall texts idx,
+  forallb bytes_okb texts = true -> forallb (no_delim 0) texts = true ->
+  idx <> [] -> (forall x, In x idx -> (1 <= x)%nat) ->
+  encode_tool 0 idx (decoded_stream 0 texts) =
+    TOk (b64_file (map snd (filter (fun pd => existsb (Nat.eqb (fst pd)) idx) (combine (seq 1 (length texts)) texts)))).
+Proof. exact docenc_index_select_encode_nul_proof. Qed.
+Print Assumptions C09_docenc_index_select_encode_nul.
+
 (* non-vacuity: the hypotheses are met by concrete non-trivial data *)
 Example C09_nonvacuous_roundtrip :
   bytes_okb [0; 255; 16; 131; 77] = true /\
